@@ -17,6 +17,8 @@ ASSUMPTIONS = [
     "a history uses one dtype per utterance (SI documents a ValueError for mixed dtypes inside an utterance)",
     "empty (0-frame) results are compared by shape only: an empty matrix has no feature bits and its dtype after a zero-sample utterance is not part of the statement",
     "configurations as in C01 (STFT with shift <= length, SI inside the frame-shift precondition), 1 kHz",
+    "'input arrays are never modified' is judged for read-only arrays (must be accepted) and for writable ones, against a private copy, "
+    "after the call and after every later call of the history; utterances may end in NaN / inf samples (results compared NaN-aware)",
 ]
 
 DT = {"f64": np.float64, "f32": np.float32}
@@ -42,7 +44,7 @@ def _same(a, b, what, dtype_too=True):
             )
 
 
-def _sig(op, dt):
+def _sig(op, dt, writable=False):
     kind = op.get("kind", "noise")
     tail = kind in ("nan_tail", "inf_tail")
     x = make_signal({"n": op["n"], "kind": "noise" if tail else kind, "seed": op.get("seed", 0), "scale": op.get("scale", 1.0)}, DT[dt])
@@ -50,7 +52,8 @@ def _sig(op, dt):
         # a recording that ends in non-finite samples (a clipped / corrupted tail): whatever it leaves in the
         # instance's buffers must not reach the next utterance
         x[-max(1, len(x) // 3):] = np.nan if kind == "nan_tail" else np.inf
-    x.flags.writeable = False
+    # read-only arrays must be accepted; writable ones must come back untouched (now and after every later call)
+    x.flags.writeable = bool(writable)
     return x
 
 
@@ -78,6 +81,13 @@ def check_history(case):
     last_chunk_subframe = False
     interesting = False
     labels = set(["kind=" + spec["kind"], "style=" + real.frame_style])
+    writable = bool(case.get("writable"))
+    labels.add("writable inputs" if writable else "read-only inputs")
+    handed = []  # (array given to the instance, private copy, step) - the caller keeps its arrays
+
+    def untouched(now):
+        for arr, copy_, step in handed:
+            require(arr.tobytes() == copy_.tobytes(), "{}: the array given to the instance at {} was modified afterwards", now, step)
 
     def length_class(n):
         return "0" if n == 0 else ("<L/2+1" if n < L // 2 + 1 else ("<L" if n < L else ">=L"))
@@ -91,10 +101,11 @@ def check_history(case):
                 dt = op.get("dtype", "f64")
                 cur_samples = 0
                 utterances += 1
-            x = _sig(op, dt)
+            x = _sig(op, dt, writable)
             keep = x.copy()
+            handed.append((x, keep, tag))
             a = call(tag + " compute_chunk", real.compute_chunk, x)
-            b = twin.compute_chunk(x)
+            b = twin.compute_chunk(keep.copy())
             _same(a, b, tag + " compute_chunk(len %d) in utterance %d" % (len(x), utterances))
             require(x.tobytes() == keep.tobytes(), "{}: input chunk was modified", tag)
             started = True
@@ -117,8 +128,9 @@ def check_history(case):
                 _same(a, b, tag + " repeated finalize", dtype_too=False)
                 labels.add("repeated-finalize")
         elif kind in ("full", "fbf"):
-            x = _sig(op, op.get("dtype", "f64"))
+            x = _sig(op, op.get("dtype", "f64"), writable)
             keep = x.copy()
+            handed.append((x, keep, tag))
             if started:
                 if kind == "full":
                     expect_raises(tag + " compute_full mid-utterance", ValueError, real.compute_full, x)
@@ -131,11 +143,11 @@ def check_history(case):
                 f = fresh()
                 if kind == "full":
                     a = call(tag, real.compute_full, x)
-                    b = f.compute_full(x)
+                    b = f.compute_full(keep.copy())
                 else:
                     cs = op.get("chunk_size", 7)
                     a = call(tag, frame_by_frame_calculation, real, x, cs)
-                    b = frame_by_frame_calculation(f, x, cs)
+                    b = frame_by_frame_calculation(f, keep.copy(), cs)
                 utterances += 1
                 _same(a, b, tag + " on %d samples as utterance %d" % (len(x), utterances))
                 if utterances >= 2 and len(classes) >= 1:
@@ -146,6 +158,7 @@ def check_history(case):
         else:
             raise Violation("unknown op %r" % kind)
         require(real.started is started or real.started == started, "{}: started is {!r}, expected {!r}", tag, real.started, started)
+        untouched(tag)
     if refused and utterances >= 2:
         interesting = True
     labels.add("utterances>=2" if utterances >= 2 else "utterances<2")
@@ -163,7 +176,7 @@ def _sig_fields():
 
 
 @st.composite
-def _utterance(draw, L, S):
+def _utterance(draw, L, S, long_total=None):
     """One utterance as a list of operations. Total lengths are drawn from the classes that matter:
     empty, too short for a frame, sub-frame but long enough, about one frame, several frames."""
     total = draw(st.one_of(
@@ -175,7 +188,7 @@ def _utterance(draw, L, S):
         st.integers(L, L + S),
         st.integers(L, 4 * L + 3),
         st.sampled_from([L // 2, L // 2 + 1, L - 1, L, L + 1, 2 * L + S]),
-    ))
+    ) if long_total is None else st.one_of(*([st.integers(L, 4 * L + 3)] * 5 + [st.sampled_from(long_total)])))
     mode = draw(st.sampled_from(["chunks", "chunks", "chunks", "full", "fbf"]))
     dtype = draw(st.sampled_from(["f64", "f64", "f32"]))
     sig = {k: draw(v) for k, v in _sig_fields().items()}
@@ -201,7 +214,11 @@ def _utterance(draw, L, S):
     return ops
 
 
-def _ops(L, S):
+def _ops(L, S, long_total=None):
+    if long_total is not None:
+        # the same histories, plus (one utterance in six of one history in three) a recording of several DFT blocks
+        return st.one_of(_ops(L, S), _ops(L, S),
+                         st.lists(st.one_of(_utterance(L, S), _utterance(L, S, long_total)), min_size=2, max_size=5).map(lambda us: [op for u in us for op in u]))
     return st.lists(_utterance(L, S), min_size=2, max_size=8).map(lambda us: [op for u in us for op in u])
 
 
@@ -217,7 +234,8 @@ def _histories(draw, kind):
         comp = draw(si_specs())
         S = comp["S"]
         L = draw(st.sampled_from([8, 20, 60, 150]))
-    return {"comp": comp, "ops": draw(_ops(L, S))}
+        return {"comp": comp, "ops": draw(_ops(L, S, [1500, 3000, 5000])), "writable": draw(st.booleans())}
+    return {"comp": comp, "ops": draw(_ops(L, S)), "writable": draw(st.booleans())}
 
 
 def clauses(tier):
